@@ -62,6 +62,7 @@ class _Tunnel(Interface):
         "_requested_address",
         "_send_lock",
         "_src_address",
+        "_user_disconnected",
         "auto_reconnect",
         "auto_reconnect_wait",
         "cemi_received_callback",
@@ -102,6 +103,8 @@ class _Tunnel(Interface):
         self._requested_address: IndividualAddress | None = None
         self._src_address = IndividualAddress(0)
         self._send_lock = asyncio.Lock()
+        # set by disconnect() - a tunnel closed by the user shall not reconnect on its own
+        self._user_disconnected = False
 
         self._init_transport()
         self.transport.register_callback(
@@ -134,6 +137,7 @@ class _Tunnel(Interface):
 
         Raise CommunicationError when not successful.
         """
+        self._user_disconnected = False
         self.xknx.connection_manager.connection_state_changed(
             XknxConnectionState.CONNECTING, self.connection_type
         )
@@ -163,12 +167,17 @@ class _Tunnel(Interface):
 
     def _tunnel_established(self) -> None:
         """Set up interface when the tunnel is ready."""
+        # a connect() that completes after a concurrent disconnect() leaves a live tunnel
+        self._user_disconnected = False
         self.sequence_number = 0
         self._connection_count += 1
         self.start_heartbeat()
 
     def _tunnel_lost(self) -> None:
         """Prepare for reconnection or shutdown when the connection is lost. Callback."""
+        if self._user_disconnected:
+            # disconnect() is already tearing the tunnel down (or has done so)
+            return
         if self.auto_reconnect:
             # _tunnel_lost might be called multiple times when the transport receives
             # multiple invalid frames - ensure only one reconnect task is started
@@ -236,6 +245,7 @@ class _Tunnel(Interface):
 
     async def disconnect(self) -> None:
         """Disconnect tunneling connection."""
+        self._user_disconnected = True
         self._prepare_disconnect()
         self._stop_reconnect()
         try:
